@@ -377,6 +377,12 @@ class Interp(ExprMixin):
             label = e.func.id
             for a in e.args:
                 _, st = self.eval(a, st, frame, out)
+            # `raise exc_class(msg)` where exc_class is a local / parameter that holds exception classes
+            held = {t[1] for t in st.env.get(e.func.id, EMPTY) if tag(t) == "class"}
+            if held:
+                for l in sorted(held):
+                    out.add_raise(l, st)
+                return None
         elif isinstance(e, ast.Name):
             vals = st.env.get(e.id, EMPTY)
             labs = {t[1] for t in vals if tag(t) == "exc"}
@@ -394,8 +400,22 @@ class Interp(ExprMixin):
     # --- compound statements --------------------------------------------
     def st_If(self, s, st, frame, out):
         f, st = self.cond(s.test, st, frame, out)
+        if self.assume is not None:
+            # scenario run: what is assumed about an atom of this test is a fact of the path from here on
+            for a in F.atoms_of(f):
+                v = self.assume(a)
+                if v is not None:
+                    st = st.set(facts=F.add_fact(st.facts, a, v))
         dec = self.decide(f, st)
         res = None
+        # a branch whose added fact contradicts what this path has already established about the SAME atoms (same probe, same
+        # epoch: the abstract path has one answer per atom) is infeasible
+        if dec is None:
+            ft, ff = F.add_fact(st.facts, f, True), F.add_fact(st.facts, f, False)
+            if not F.consistent(ft) and F.consistent(ff):
+                dec = False
+            elif not F.consistent(ff) and F.consistent(ft):
+                dec = True
         if dec is not False:
             st_t = self.refine_probe(f, True, self.refine(s.test, True, st.set(facts=F.add_fact(st.facts, f, True))))
             o = self.exec_block(s.body, st_t, frame)
